@@ -1,6 +1,6 @@
 (** C20 — generated identifiers never collide.
     Model: Model/Ids.v (serialised sno generator as wrapped by pkg/id, snapshot/restore, fallback). *)
-From BV Require Import Model.Ids Proofs.IdsProofs.
+From BV Require Import Model.Ids Proofs.IdsProofs Model.Partitions Proofs.PartitionsProofs Proofs.PartitionsIdsProofs Gen.Facts.
 Open Scope Z_scope.
 
 (* distinct field tuples have distinct byte encodings *)
@@ -27,6 +27,36 @@ Theorem C20_multi : forall c1 c2 g1 g2 i, gpart g1 <> gpart g2 ->
   In i (snd (draws g1 c1)) -> In i (snd (draws g2 c2)) -> False.
 Proof. exact multi_disjoint. Qed.
 Print Assumptions C20_multi.
+
+(* SEVERAL GENERATORS OF ONE PROGRAM (Model/Partitions.v). C20_multi needs different partitions. A generator made without
+   a snapshot gets the partition the library hands out next -- the engine never picks one (the variant the sources show:
+   src_partition_comes_from_the_library, read off pkg/id/sno.go on every run) --, so whatever the program does (any
+   number of generators made, their contexts ending at any time, the library's partitions running out: an error, no
+   generator) no two generators that were made have the same partition ... *)
+Close Scope Z_scope.
+Theorem C20_generators_of_one_program_get_different_partitions : forall limit evs i j p q,
+  nth_error (parts (prun (psource_of src_partition_comes_from_the_library) limit evs)) i = Some p ->
+  nth_error (parts (prun (psource_of src_partition_comes_from_the_library) limit evs)) j = Some q -> i <> j -> p <> q.
+Proof. exact two_generators_differ. Qed.
+Print Assumptions C20_generators_of_one_program_get_different_partitions.
+Open Scope Z_scope.
+
+(* ... hence never issue the same id, whatever their clocks read *)
+Theorem C20_generators_of_one_program_never_collide : forall limit evs i j p q g1 g2 c1 c2 x,
+  nth_error (parts (prun (psource_of src_partition_comes_from_the_library) limit evs)) i = Some p ->
+  nth_error (parts (prun (psource_of src_partition_comes_from_the_library) limit evs)) j = Some q -> i <> j ->
+  gpart g1 = Z.of_nat p -> gpart g2 = Z.of_nat q ->
+  In x (snd (draws g1 c1)) -> In x (snd (draws g2 c2)) -> False.
+Proof. exact program_generators_never_collide. Qed.
+Print Assumptions C20_generators_of_one_program_never_collide.
+
+(* with partitions of ended generators handed out again, the third generator gets the partition of the first, which
+   may still be drawn from *)
+Theorem C20_partitions_refuted_when_recycled :
+  parts (prun Recycling 8 [Make; Make; EndOf 0; Make]) = [0; 1; 0]%nat /\
+  parts (prun Library 8 [Make; Make; EndOf 0; Make]) = [0; 1; 2]%nat.
+Proof. exact refuted_with_recycled_partitions. Qed.
+Print Assumptions C20_partitions_refuted_when_recycled.
 
 (* snapshot at a clock value not before the last issued timestamp, restore, continue with a
    clock that does not run behind the snapshot: later output is disjoint from earlier output *)
